@@ -102,7 +102,7 @@ PROPS = {
         explanation='Decision stability of the coordinator proved per function against the durable-log invariant; vote counting (iterator adapters over the vote map), timeouts and the participant side are bounded; message-loss histories and threads are not covered.',
     ),
     'C13': dict(
-        v=['C13_walfile', 'C13_append', 'C03_coord'], k=[], b=['c13_txrecovery'],
+        v=['C13_walfile', 'C13_append', 'C03_coord'], k=[], b=['c13_txrecovery', 'c03_2pc'],
         pairs={'C13_walfile': ['bounded:c13_txrecovery'], 'C13_append': ['bounded:c13_txrecovery'], 'C03_coord': ['bounded:c13_txrecovery']},
         level='other',
         technique='Verus: TxWal open scan proved equal to the whole-record-prefix spec (torn tail dropped on reopen); TxWal::append proved to add exactly one fsynced record before Ok and at most a torn record on failure (the contract unit C03.coord assumes for its WAL); the coordinator functions that write decision records proved to keep memory and the durable record sequence in agreement at every exit, including failed appends (unit C03.coord); bounded native checks of the recovery fold (exhaustive on short logs) and of recover-then-act at every byte cut of real WAL files',
